@@ -62,6 +62,7 @@ def period_of(tok, dim):
     return [8.0] * dim if tok == 1 else [8.0, 16.0, 12.0][:dim]
 
 
+MAX_DRAWS = 3        # spec constant MaxDraws: the modelled position of the noise stream saturates here
 ODD_MODES = [3]      # an odd mode number (refused by the Fourier generator)
 
 
@@ -78,7 +79,7 @@ def mc_text(name, kind, dim, size, seed_compare="value", dk_refresh=True, refuse
         "VarVals": "{1, 2}", "LenVals": "{1, 2}", "AnisVals": anis, "AngVals": ang, "NugVals": "{0, 1}",
         "ModeNos": "{4, 6}", "Periods": "{1, 2}" if kind == "Fourier" else "{1}",
         "SeedCompare": '"%s"' % seed_compare, "DkRefresh": "TRUE" if dk_refresh else "FALSE",
-        "MaxDraws": "3", "RefusedAtomic": "TRUE" if refused_atomic else "FALSE",
+        "MaxDraws": str(MAX_DRAWS), "RefusedAtomic": "TRUE" if refused_atomic else "FALSE",
         "UpdModels": ("{[var |-> 1, len |-> 2, anis |-> 1, ang |-> 0, nug |-> 0]}" if dim == 1 else
                       "{[var |-> 1, len |-> 1, anis |-> 3, ang |-> 0, nug |-> 0], [var |-> 2, len |-> 2, anis |-> 1, ang |-> 1, nug |-> 1]}"),
         "InitModels": ("{[var |-> 1, len |-> 1, anis |-> 1, ang |-> 0, nug |-> 0]}" if dim == 1 else
@@ -131,7 +132,8 @@ class Real:
         self.cls = getattr(gs, cls)
         kw = dict(seed=seed_obj(st["seed"], fresh))
         if kind == "Fourier":
-            kw.update(mode_no=[fourier_modes(st["modeNo"])] * dim, period=period_of(st["period"], dim))
+            per = period_of(st["period"], dim)
+            kw.update(mode_no=[fourier_modes(st["modeNo"])] * dim, period=per[0] if (not fresh and len(set(per)) == 1) else per)
         else:
             kw.update(mode_no=st["modeNo"] * MODE_SCALE[0])
         gen = {"RandMeth": "RandMeth", "Fourier": "Fourier", "IncomprRandMeth": "IncomprRandMeth"}[kind]
@@ -163,7 +165,15 @@ class Real:
         elif n == "GenModeNo":
             srf.generator.mode_no = [fourier_modes(op["v"])] * self.dim if self.kind == "Fourier" else op["v"] * MODE_SCALE[0]
         elif n == "GenPeriod":
-            srf.generator.period = period_of(op["v"], self.dim)
+            per = period_of(op["v"], self.dim)
+            if self.fresh:                              # the two runs of a behaviour use different spellings
+                srf.generator.period = per
+            elif len(set(per)) == 1:
+                srf.generator.period = per[0]           # one number for all axes
+            else:                                       # the array handed out by the property, edited and assigned back
+                cur = srf.generator.period
+                cur[...] = per
+                srf.generator.period = cur
         elif n == "GenSeed":
             srf.generator.seed = seed_obj(op["v"], self.fresh)
         elif n == "GenReset":
@@ -172,7 +182,8 @@ class Real:
             srf.model = self.model(op["m"])
             kw = {}
             if op["p"] != KEEP:
-                kw["period"] = period_of(op["p"], self.dim)
+                per = period_of(op["p"], self.dim)
+                kw["period"] = per[0] if (not self.fresh and len(set(per)) == 1) else per
             if op["n"] != KEEP:
                 kw["mode_no"] = [fourier_modes(op["n"])] * self.dim
             srf.generator.update(model=srf.model, **kw)
@@ -223,6 +234,17 @@ def reference(kind, cls, dim, want, X, tag="grid"):
     return _REF[key]
 
 
+def reference_noisy(kind, cls, dim, want, nug, d, X):
+    """Field (with nugget noise) of the d-th identical call of a freshly constructed SRF with the settings `want`."""
+    key = ("noisy", kind, cls, dim, tlaval.freeze(want), nug, MODE_SCALE[0], FOURIER_ODD[0])
+    if key not in _REF:
+        st = {"seed": want["seed"], "modeNo": want["modeNo"], "period": want["period"],
+              "pm": {"var": want["var"], "len": want["len"], "anis": want["anis"], "ang": want["ang"], "nug": nug}}
+        r = Real(kind, cls, dim, st, fresh=True)
+        _REF[key] = [np.array(r.srf(X)) for _ in range(MAX_DRAWS - 1)]
+    return _REF[key][d - 1]
+
+
 def last_change(hist):
     """Coarse signature of what changed since the previous Call."""
     out = set()
@@ -262,12 +284,23 @@ def replay(col, kind, cls, dim, beh, origin, locality=True):
                     break
                 continue
             if op["name"] != "Call":
-                r.apply(op)
+                try:
+                    r.apply(op)
+                except Exception as e:  # noqa: BLE001 - the library refused an operation the specification enables
+                    col.drift.append("%s/%s dim %d: %s raised %s: %s" % (kind, cls, dim, tlaval.to_tla(op), type(e).__name__, e))
+                    return ncalls
                 continue
             ncalls += 1
-            f = np.array(r.call(op["seed"], X))
-            outs[fresh].append(f)
             want = op["want"]
+            try:
+                f = np.array(r.call(op["seed"], X))
+            except Exception as e:  # noqa: BLE001
+                reference(kind, cls, dim, want, X)     # a freshly built SRF with these settings returns a field
+                col.violation("%s:raised:after-%s" % (kind, last_change(hist)),
+                              "%s/%s dim %d: the call after %s raised %s (%s) where a freshly built SRF with the same settings returns a field"
+                              % (kind, cls, dim, [tlaval.to_tla(o) for o in hist[-3:]], type(e).__name__, e), rp)
+                return ncalls
+            outs[fresh].append(f)
             nugfree = st["pm"]["nug"] == 0
             scale = np.sqrt(VAR[want["var"]])
             vec = f.ndim == 2
@@ -285,6 +318,19 @@ def replay(col, kind, cls, dim, beh, origin, locality=True):
                                       "Fourier/%s dim %d: field not periodic along main axis %d with period %s after %s (|d| = %.3g)"
                                       % (cls, dim, bad[0], bad[1], [tlaval.to_tla(o) for o in hist[-3:]], bad[2]), rp)
                         return ncalls
+            else:
+                # with a nugget: the noise stream restarts whenever the generator is re-seeded (spec variable `draws`
+                # = number of noise draws since then), so the d-th call since then equals the d-th call of a fresh SRF
+                d = st["draws"]["B" if fresh else "A"]
+                if 1 <= d < MAX_DRAWS:
+                    ref = reference_noisy(kind, cls, dim, want, st["pm"]["nug"], d, X)
+                    if not np.allclose(f, ref, rtol=0, atol=1e-12 * scale):
+                        col.violation("%s:fresh-mismatch:nugget-noise:after-%s" % (kind, last_change(hist)),
+                                      "%s/%s dim %d: field with nugget after %s (call #%d since the generator was last re-seeded) differs from "
+                                      "call #%d of a freshly built SRF with the same settings (max |d| = %.3g)"
+                                      % (kind, cls, dim, [tlaval.to_tla(o) for o in hist[-3:]], d, d, float(np.max(np.abs(f - ref)))), rp)
+                        return ncalls
+            if nugfree:
                 if locality and not fresh:
                     bad = arrangements(r, f, X, dim, scale, vec, kind, cls, want)
                     if bad:
@@ -374,6 +420,16 @@ def arrangements(r, f, X, dim, scale, vec, kind, cls, want):
                 g = np.array(m3.point_data["mfield"])
                 if np.max(np.abs(g - f)) > tol:
                     return ("mesh direction string '%s'" % dstr, float(np.max(np.abs(g - f))))
+        # cell centroids of a mesh whose vertex coordinates are stored as integers
+        ipts = np.array([[0, 0, 0], [3, 0, 1], [0, 3, 2], [3, 3, 0], [5, 1, 4], [1, 2, 5]])[:, :dim]
+        tri = np.array([[0, 1, 2], [1, 3, 2], [1, 4, 3], [2, 3, 5]])
+        mi = meshio.Mesh(ipts, [("triangle", tri)])
+        r.srf.mesh(mi, points="centroids", name="cfield", seed=np.nan)
+        g = np.array(mi.cell_data["cfield"][0])
+        cen = ipts[tri].astype(float).mean(axis=1).T
+        h = np.array(r.call(KEEP, cen, store=False))
+        if np.max(np.abs(g - h)) > tol:
+            return ("mesh type (meshio centroids, integer vertex coordinates)", float(np.max(np.abs(g - h))))
     return None
 
 
@@ -482,6 +538,9 @@ class DrawCounter:
             cls.reset_seed, cls.get_nugget = r, n
 
 
+RAISED = []     # exceptions raised by the library during recorded executions
+
+
 def random_executions(kind, cls, dim, rng, n_exec, n_ops):
     import gstools as gs
 
@@ -499,52 +558,56 @@ def random_executions(kind, cls, dim, rng, n_exec, n_ops):
             r = Real(kind, cls, dim, st, fresh=True)
             events.append(dict(name="Init", pm=dict(pm), seed=st["seed"], modeNo=st["modeNo"], period=st["period"], draws=0))
             for _i in range(n_ops):
-                k = rng.choice(["Call", "Call", "Call", "InPlace", "InPlace", "AssignModel", "GenModeNo", "GenSeed", "GenReset", "GenUpdate"]
-                               + (["GenPeriod", "GenRefused"] if kind == "Fourier" else []))
-                if k == "Call":
-                    op = {"name": "Call", "seed": rng.choice([KEEP, KEEP] + seeds)}
-                    r.call(op["seed"], X)
-                elif k == "InPlace":
-                    fld = rng.choice(["var", "len", "nug"] + (["anis", "ang"] if dim > 1 else []))
-                    dom = {"var": [1, 2], "len": [1, 2], "nug": [0, 1], "anis": anis_toks, "ang": ang_toks}[fld]
-                    v = rng.choice([x for x in dom if x != pm[fld]])
-                    op = {"name": "InPlace", "fld": fld, "v": v}
-                    pm[fld] = v
-                    r.apply(op)
-                elif k == "AssignModel":
-                    m = {"var": rng.choice([1, 2]), "len": rng.choice([1, 2]), "anis": rng.choice(anis_toks),
-                         "ang": rng.choice(ang_toks), "nug": rng.choice([0, 1])}
-                    if m == pm:
-                        continue
-                    op = {"name": "AssignModel", "m": dict(m)}
-                    pm = dict(m)
-                    r.apply(op)
-                elif k == "GenUpdate":
-                    m = {"var": rng.choice([1, 2]), "len": rng.choice([1, 2]), "anis": rng.choice(anis_toks),
-                         "ang": rng.choice(ang_toks), "nug": rng.choice([0, 1])}
-                    if m == pm:
-                        continue
-                    fo = kind == "Fourier"
-                    op = {"name": k, "m": dict(m), "p": rng.choice([KEEP, 1, 2]) if fo else KEEP, "n": rng.choice([KEEP, 4, 6]) if fo else KEEP}
-                    pm = dict(m)
-                    r.apply(op)
-                elif k == "GenReset":
-                    op = {"name": k, "v": rng.choice([KEEP] + seeds)}
-                    r.apply(op)
-                elif k == "GenRefused":
-                    fo = kind == "Fourier"
-                    m = {"none": True}
-                    if fo and rng.random() < 0.4:
+                try:
+                    k = rng.choice(["Call", "Call", "Call", "InPlace", "InPlace", "AssignModel", "GenModeNo", "GenSeed", "GenReset", "GenUpdate"]
+                                   + (["GenPeriod", "GenRefused"] if kind == "Fourier" else []))
+                    if k == "Call":
+                        op = {"name": "Call", "seed": rng.choice([KEEP, KEEP] + seeds)}
+                        r.call(op["seed"], X)
+                    elif k == "InPlace":
+                        fld = rng.choice(["var", "len", "nug"] + (["anis", "ang"] if dim > 1 else []))
+                        dom = {"var": [1, 2], "len": [1, 2], "nug": [0, 1], "anis": anis_toks, "ang": ang_toks}[fld]
+                        v = rng.choice([x for x in dom if x != pm[fld]])
+                        op = {"name": "InPlace", "fld": fld, "v": v}
+                        pm[fld] = v
+                        r.apply(op)
+                    elif k == "AssignModel":
                         m = {"var": rng.choice([1, 2]), "len": rng.choice([1, 2]), "anis": rng.choice(anis_toks),
                              "ang": rng.choice(ang_toks), "nug": rng.choice([0, 1])}
-                    op = {"name": k, "m": m, "p": rng.choice([KEEP, 1, 2]) if fo else KEEP}
-                    if not r.refused(op):
-                        break       # accepted: the execution leaves the modelled behaviours here
-                else:
-                    op = {"name": k, "v": rng.choice({"GenModeNo": [4, 6], "GenSeed": seeds, "GenPeriod": [1, 2]}[k])}
-                    r.apply(op)
-                op["draws"] = int(getattr(r.srf.generator, "_verif_draws", 0))
-                events.append(op)
+                        if m == pm:
+                            continue
+                        op = {"name": "AssignModel", "m": dict(m)}
+                        pm = dict(m)
+                        r.apply(op)
+                    elif k == "GenUpdate":
+                        m = {"var": rng.choice([1, 2]), "len": rng.choice([1, 2]), "anis": rng.choice(anis_toks),
+                             "ang": rng.choice(ang_toks), "nug": rng.choice([0, 1])}
+                        if m == pm:
+                            continue
+                        fo = kind == "Fourier"
+                        op = {"name": k, "m": dict(m), "p": rng.choice([KEEP, 1, 2]) if fo else KEEP, "n": rng.choice([KEEP, 4, 6]) if fo else KEEP}
+                        pm = dict(m)
+                        r.apply(op)
+                    elif k == "GenReset":
+                        op = {"name": k, "v": rng.choice([KEEP] + seeds)}
+                        r.apply(op)
+                    elif k == "GenRefused":
+                        fo = kind == "Fourier"
+                        m = {"none": True}
+                        if fo and rng.random() < 0.4:
+                            m = {"var": rng.choice([1, 2]), "len": rng.choice([1, 2]), "anis": rng.choice(anis_toks),
+                                 "ang": rng.choice(ang_toks), "nug": rng.choice([0, 1])}
+                        op = {"name": k, "m": m, "p": rng.choice([KEEP, 1, 2]) if fo else KEEP}
+                        if not r.refused(op):
+                            break       # accepted: the execution leaves the modelled behaviours here
+                    else:
+                        op = {"name": k, "v": rng.choice({"GenModeNo": [4, 6], "GenSeed": seeds, "GenPeriod": [1, 2]}[k])}
+                        r.apply(op)
+                    op["draws"] = int(getattr(r.srf.generator, "_verif_draws", 0))
+                    events.append(op)
+                except Exception as e:  # noqa: BLE001 - the library refused an operation: the execution ends here
+                    RAISED.append("%s: %s" % (type(e).__name__, e))
+                    break
     return events
 
 
@@ -595,6 +658,8 @@ def trace_validation(rep, sc, tier, rng, kinds):
             rep.drift_msg("recorded execution of %s dim %d is not explained by the code-shaped layer of Generator.tla at event #%d %s (%s): "
                           "spec stream position %s" % (kind, dim, idx, evs[idx] if idx < len(evs) else "?", r.error[1],
                                                        tr[-1]["state"].get("draws") if tr else "?"))
+    if RAISED:
+        rep.drift_msg("%d recorded executions ended with an exception raised by the library, first: %s" % (len(RAISED), RAISED[0]))
     rep.traces += n_ex
     rep.extra["trace_validation"] = {"executions": n_ex, "events": n_ev, "rejected_batches": n_bad,
                                      "observable": "nugget draws since the RNG was (re)created, read through wrappers around reset_seed / get_nugget",
